@@ -343,4 +343,38 @@ lemma getD_hdiv : ∀ (a b : Vec) (i : Nat), (hdiv a b).getD i 0 = a.getD i 0 / 
       | zero => simp
       | succ i => simpa using ih ys i
 
+lemma idxOf?_getD (l : List Nat) (a j : Nat) (h : l.idxOf? a = some j) : j < l.length ∧ l.getD j 0 = a := by
+  induction l generalizing j with
+  | nil => simp at h
+  | cons x xs ih =>
+    rw [List.idxOf?_cons] at h
+    by_cases hx : (x == a) = true
+    · simp only [hx, if_true, Option.some.injEq] at h
+      subst h
+      exact ⟨by simp, by simpa using hx⟩
+    · simp only [hx, Bool.false_eq_true, if_false, Option.map_eq_some_iff] at h
+      obtain ⟨k, hk, rfl⟩ := h
+      obtain ⟨h1, h2⟩ := ih k hk
+      exact ⟨by simp; omega, by simpa using h2⟩
+
+lemma repackage_ok (src dst : List Nat) (nrows : Nat) (rx rx' : Rxn)
+    (h : rx.repackage src dst nrows = .ok rx') :
+    ∃ rows' j, remapRows src dst (chunk src.length nrows rx.nu) = .ok rows' ∧
+      dst.idxOf? (src.getD (rx.r % src.length) 0) = some j ∧
+      rx'.nu = rows'.flatten ∧ rx'.r = rx.r / src.length * dst.length + j ∧ rx'.X = rx.X := by
+  unfold Rxn.repackage at h
+  simp only [bind, Except.bind] at h
+  cases hr : remapRows src dst (chunk src.length nrows rx.nu) with
+  | error e => rw [hr] at h; cases h
+  | ok rows' =>
+    rw [hr] at h
+    simp only at h
+    cases hj : dst.idxOf? (src.getD (rx.r % src.length) 0) with
+    | none => rw [hj] at h; cases h
+    | some j =>
+      rw [hj] at h
+      simp only [pure, Except.pure] at h
+      injection h with h; subst h
+      exact ⟨rows', j, rfl, rfl, rfl, rfl, rfl⟩
+
 end ThermoVerif.Props.C05
